@@ -15,7 +15,8 @@
 //!  B. database accepted ⇒ for every canonical name in the requested range: present (unless allow_missing) and
 //!     SHA-256(content) == M[name]; no other immutable-named file with a number in the range.
 //!  C. rejected with the lists ⇒ every offending name is in missing ∪ tampered ∪ non_verifiable.
-//!  D. positive control: nothing offending, ≥ 1 file in the range ⇒ accepted.
+//!  D. positive control: nothing offending, ≥ 1 file in the range, and the accepted list assigns the certified names
+//!     ⇒ accepted.
 
 use std::collections::{BTreeMap, BTreeSet};
 use std::path::{Path, PathBuf};
@@ -44,6 +45,9 @@ use crate::c12::{
 
 pub const KEY_WRONG_NAME: &str = "accepted-certified-content-under-wrong-name";
 pub const KEY_WRONG_NAME_UNREPORTED: &str = "unreported-certified-content-under-wrong-name";
+/// same acceptance, but the served (root-preserving) digest list itself assigns the digests to other names: the
+/// Merkle root authenticates the sequence of digests, not the names
+pub const KEY_WRONG_NAME_RENAMED_LIST: &str = "accepted-certified-content-under-wrong-name-with-renamed-digest-list";
 /// completeness side of the positive control: an untampered range in which two files have the same content
 pub const KEY_HONEST_EQUAL: &str = "honest-rejected-equal-file-contents";
 
@@ -114,11 +118,23 @@ enum ListTamper {
     Empty,
 }
 
+/// A hostile mirror that scrambles the directory AND the served list consistently: entry i of the (name-sorted) list
+/// is removed, a new name is inserted right after entry i+k, and the digest VALUES keep their order (so the list still
+/// reproduces the signed root, but assigns to names i+1..=i+k the digests of names i..i+k-1); in the directory file i
+/// is deleted and files i+1..=i+k hold the contents of files i..i+k-1.
+#[derive(Clone, Debug, Serialize, Deserialize)]
+struct Shift {
+    i: u16,
+    k: u16,
+}
+
 #[derive(Clone, Debug, Serialize, Deserialize)]
 struct Case10 {
     db: Db10,
     range: RangeSpec,
     allow_missing: bool,
+    #[serde(default)]
+    shift: Option<Shift>,
     dir: Vec<DirTamper>,
     list: Vec<ListTamper>,
 }
@@ -185,10 +201,15 @@ fn case_strategy() -> impl Strategy<Value = Case10> {
         db10_strategy(),
         range_strategy(),
         prop::bool::weighted(0.35),
+        prop::option::weighted(0.08, (any::<u16>(), any::<u16>()).prop_map(|(i, k)| Shift { i, k })),
         prop_oneof![1 => Just(vec![]).boxed(), 8 => prop::collection::vec(dir_tamper_strategy(), 1..=3).boxed()],
         prop_oneof![6 => Just(vec![]).boxed(), 4 => prop::collection::vec(list_tamper_strategy(), 1..=2).boxed()],
     )
-        .prop_map(|(db, range, allow_missing, dir, list)| Case10 { db, range, allow_missing, dir, list })
+        .prop_map(|(db, range, allow_missing, shift, dir, list)| {
+            // the coordinated scenario is generated on its own (it needs the gap to be tolerated)
+            let (allow_missing, dir, list) = if shift.is_some() { (true, vec![], vec![]) } else { (allow_missing, dir, list) };
+            Case10 { db, range, allow_missing, shift, dir, list }
+        })
 }
 
 // ---------------------------------------------------------------------------------------------------------------
@@ -290,7 +311,8 @@ impl World {
             .entries;
         let honest_list: Vec<(String, String)> = entries.iter().map(|(f, d)| (f.filename.clone(), d.clone())).collect();
         // cross-check with the harness' restatement (names, SHA-256, MMR)
-        let own_list: Vec<(String, String)> = m.iter().map(|(n, d)| (n.clone(), d.clone())).collect();
+        let mut own_list: Vec<(String, String)> = m.iter().map(|(n, d)| (n.clone(), d.clone())).collect();
+        own_list.sort_by_key(|(n, _)| (parse_immutable_name(n).map(|x| x.0), n.clone()));
         let own_root = mmr_root_hex(&own_list.iter().map(|x| x.1.as_str()).collect::<Vec<_>>()).unwrap();
         if honest_list != own_list || own_root != signed_root {
             return Err((
@@ -681,7 +703,7 @@ fn run_verification(
         let cdb = client.cardano_database_v2();
         let verified = rt
             .block_on(cdb.download_and_verify_digests(&w.certificate, &w.snapshot))
-            .map_err(|e| format!("{e:?}"))?;
+            .map_err(|e| format!("{e:?}").lines().next().unwrap_or("").to_string())?;
         let tree_root = verified.merkle_tree.compute_root().map(|r| r.to_hex()).unwrap_or_default();
         let res = rt.block_on(cdb.verify_cardano_database(
             &w.certificate,
@@ -735,10 +757,27 @@ fn case10(c: &Case10) -> Report {
 
     // ---- tamper
     let mut labels: BTreeSet<String> = BTreeSet::new();
+    let mut served = w.honest_list.clone();
+    if let Some(sh) = &c.shift {
+        let m = served.len();
+        let i = pick_index(sh.i, m - 1);
+        let k = 1 + pick_index(sh.k, m - 1 - i);
+        let names: Vec<String> = served.iter().map(|x| x.0.clone()).collect();
+        let values: Vec<String> = served.iter().map(|x| x.1.clone()).collect();
+        let mut new_names = names.clone();
+        new_names.remove(i);
+        new_names.insert(i + k, format!("{}0", names[i + k]));
+        served = new_names.into_iter().zip(values).collect();
+        let orig = w.model.clone();
+        w.remove(&names[i]);
+        for j in i + 1..=i + k {
+            w.write(&names[j], orig[&names[j - 1]].clone());
+        }
+        labels.insert("coordinated:shifted-list-and-directory".into());
+    }
     for t in &c.dir {
         apply_dir_tamper(&mut w, &c.db, t, &mut labels);
     }
-    let mut served = w.honest_list.clone();
     for t in &c.list {
         apply_list_tamper(&mut served, &w, t, &mut labels);
     }
@@ -747,9 +786,10 @@ fn case10(c: &Case10) -> Report {
         rep.label(l.clone());
     }
     let list_only_reordered = {
-        let mut a = served.clone();
+        let (mut a, mut b) = (served.clone(), w.honest_list.clone());
         a.sort();
-        a == w.honest_list
+        b.sort();
+        a == b
     };
 
     // ---- run the caller's sequence
@@ -761,6 +801,10 @@ fn case10(c: &Case10) -> Report {
                     "honest-digest-list-rejected",
                     format!("the digest list produced by the digester (at most reordered) was rejected: {e}"),
                 );
+            }
+            if c.shift.is_some() {
+                // legitimate once the client insists on the canonical name set
+                rep.label("coordinated:shifted-list-rejected");
             }
             if !c.list.is_empty() {
                 rep.nontrivial(format!("list-rejected|{labels:?}"));
@@ -793,7 +837,7 @@ fn case10(c: &Case10) -> Report {
         // the Merkle root authenticates the digest sequence only
         rep.label("digests:accepted-with-names-differing-from-certified");
     }
-    if !c.list.is_empty() && !list_only_reordered {
+    if (!c.list.is_empty() || c.shift.is_some()) && !list_only_reordered {
         rep.label("digests:accepted-modified-list-keeping-root");
     }
 
@@ -876,10 +920,10 @@ fn case10(c: &Case10) -> Report {
                 );
             } else if !wrong.is_empty() {
                 rep.violation(
-                    KEY_WRONG_NAME,
+                    if names_differ { KEY_WRONG_NAME_RENAMED_LIST } else { KEY_WRONG_NAME },
                     format!(
-                        "range {range:?} accepted although {wrong:?} hold the certified content of OTHER file names (tampering {:?})",
-                        c.dir
+                        "range {range:?} allow_missing={} accepted although {wrong:?} hold the certified content of OTHER file names (tampering {:?}, shift {:?}, served list names differ from the certified ones: {names_differ})",
+                        c.allow_missing, c.dir, c.shift
                     ),
                 );
             }
@@ -888,7 +932,7 @@ fn case10(c: &Case10) -> Report {
             let reported: BTreeSet<&String> = missing.iter().chain(tampered.iter()).chain(non_verifiable.iter()).collect();
             let all: Vec<&String> = off.missing.iter().chain(wrong.iter()).collect();
             let unreported: Vec<&String> = all.iter().filter(|n| !reported.contains(*n)).cloned().collect();
-            if off.is_empty() && in_range_present > 0 && !unparsable {
+            if off.is_empty() && in_range_present > 0 && !unparsable && !names_differ {
                 rep.violation(
                     honest_key,
                     format!(
@@ -915,19 +959,19 @@ fn case10(c: &Case10) -> Report {
             }
         }
         Verdict::MessageMismatch => {
-            if off.is_empty() && in_range_present > 0 && !unparsable {
+            if off.is_empty() && in_range_present > 0 && !unparsable && !names_differ {
                 rep.violation(honest_key, "proof returned but the recomputed message does not match the certificate".to_string());
             }
         }
         Verdict::OtherError(e) => {
-            if off.is_empty() && in_range_present > 0 && !unparsable {
+            if off.is_empty() && in_range_present > 0 && !unparsable && !names_differ {
                 let e: String = e.lines().next().unwrap_or("").to_string();
                 rep.violation(honest_key, format!("range {range:?}: every file in the range is the certified one, yet error {e}"));
             }
         }
     }
 
-    let list_nontrivial = !c.list.is_empty() && !list_only_reordered;
+    let list_nontrivial = (!c.list.is_empty() || c.shift.is_some()) && !list_only_reordered;
     if permutation_type || list_nontrivial {
         rep.nontrivial(format!("{labels:?}|{range_class}|am={}|{verdict_class}|perm={permutation_type}", c.allow_missing));
     }
@@ -947,6 +991,7 @@ fn witness_swap() -> bool {
         },
         range: RangeSpec { kind: 0, a: 0, b: 0, invalid: false },
         allow_missing: false,
+        shift: None,
         // 00000.chunk <-> 00001.chunk
         dir: vec![DirTamper::Swap { a: 0, b: 33_000 }],
         list: vec![],
@@ -986,6 +1031,7 @@ pub fn run(args: &Args) -> i32 {
         .require_label("list:swap-names")
         .require_label("list:add-in-range")
         .require_label("list:duplicate-conflicting")
+        .require_label("coordinated:shifted-list-and-directory")
         .require_label("digests:accepted")
         .require_label("digests:rejected")
         .require_label("digests:accepted-modified-list-keeping-root")
